@@ -36,6 +36,11 @@ def hostile_arg(rng):
         return '0x' + rb(rng, rng.choice([1, 2, 4, 5, 20, 31, 32, 33, 64, 65, 72, 520, 521, 1000])).hex()
     if r < 0.4:
         return str(rng.choice([0, 1, -1, 2 ** 31, -2 ** 31, 2 ** 63 - 1, -2 ** 63, 2 ** 63, 10 ** 30, 255, 256]))
+    if r < 0.42:
+        # function calls nested to any depth
+        d = rng.choice([2, 3, 10, 100, 255, 256, 257, 1000, 20000])
+        fns = [rng.choice(['int', 'hex', 'echo', 'reverse', 'sha256', 'hash160'])] if d > 300 else [rng.choice(INLINE[:12]) for _ in range(3)]
+        return ''.join(rng.choice(fns) + '(' for _ in range(d)) + rng.choice(['01', '0x', 'abc', '']) + ')' * rng.choice([d, d, d - 1, d + 1])
     if r < 0.5:
         fn = rng.choice(INLINE)
         inner = hostile_arg(rng) if rng.random() < 0.7 else rng.choice(['', 'abc', '1111111111111111111114oLvT2', 'bc1qw508d6qejxtdg4y5r3zarvary0c5xw7kv8f3t4'])
@@ -122,6 +127,24 @@ def hostile_pair(rng):
                     sig = ops[0][1][:-1] + bytes([ht])
                     tx.vin[idx][2] = push_only(sig) + b''.join(push_only(d) for o, d in ops[1:] if d is not None)
             return 'sighash-single-at-output-count', rtx.ser_tx(tx).hex(), rtx.ser_tx(fund).hex()
+    if rng.random() < 0.12:
+        # scripts that end in the middle of a push (or carry an undefined opcode): legal bytes for a transaction, undecodable as a script
+        sc = c03.build(rng, rng.choice(['p2pkh', 'p2pk', 'p2sh-multisig', 'p2wsh', 'p2sh-hashlock']), 'valid')
+        tx, fund, idx = sc['tx'], sc['fund'], sc['idx']
+        tail = rng.choice([bytes([5, 1, 2]), bytes([0x4c]), bytes([0x4d, 0xff]), bytes([0x4e, 1, 0, 0]), bytes([0x4c, 200, 1]), bytes([75]), bytes([0xff]), bytes([0x01])])
+        where = rng.choice(['scriptsig', 'scriptsig-only', 'scriptpubkey', 'witness-script'])
+        if where == 'scriptsig':
+            tx.vin[idx][2] = tx.vin[idx][2] + tail
+        elif where == 'scriptsig-only':
+            tx.vin[idx][2] = bytes([OP_1]) + tail
+        elif where == 'scriptpubkey':
+            fv = tx.vin[idx][1]
+            v, spk0 = fund.vout[fv]
+            fund.vout[fv] = (v, spk0 + tail)
+            tx.vin[idx][0] = rtx.txid(fund)
+        elif tx.wit and tx.wit[idx]:
+            w = list(tx.wit[idx]); w[-1] = w[-1] + tail; tx.wit[idx] = w
+        return 'undecodable-' + where, rtx.ser_tx(tx).hex(), rtx.ser_tx(fund).hex()
     k = rng.choice(['vout-out-of-range', 'vout-huge', 'empty-witness-items', 'control-sizes', 'only-annex', 'witness-on-legacy', 'no-outputs-in-funding', 'many-witness-items', 'big-witness-item', 'as-is', 'swap', 'same'])
     if k == 'vout-out-of-range':
         tx.vin[idx][1] = len(fund.vout) + rng.choice([0, 1, 5])
@@ -240,9 +263,14 @@ def gen_repl(rng):
             args.insert(0, '-z')
     elif r < 0.9:
         try:
-            sc = tx_pair(rng)
-            args = ['--tx=' + rtx.ser_tx(sc['tx']).hex(), '--txin=' + rtx.ser_tx(sc['fund']).hex()]
-            kind = 'spend:%s' % sc['otype'] if 'otype' in sc else 'spend'
+            if rng.random() < 0.3:
+                hk, txh, finh = hostile_pair(rng)
+                args = ['--tx=' + txh, '--txin=' + finh]
+                kind = 'spend:hostile'
+            else:
+                sc = tx_pair(rng)
+                args = ['--tx=' + rtx.ser_tx(sc['tx']).hex(), '--txin=' + rtx.ser_tx(sc['fund']).hex()]
+                kind = 'spend:%s' % sc['otype'] if 'otype' in sc else 'spend'
         except Exception:
             args = ['OP_1']
     else:
